@@ -15,24 +15,49 @@ Entity(c) == CASE c = "&" -> <<"&", "a", "m", "p", ";">>
 RECURSIVE Esc(_)
 Esc(s) == IF s = <<>> THEN <<>> ELSE Entity(Head(s)) \o Esc(Tail(s))
 StartsWith(t, p) == Len(t) >= Len(p) /\ SubSeq(t, 1, Len(p)) = p
-Named == {<<"&">>, <<"<">>, <<">">>, <<"\"">>, <<"'">>}
-\* numeric character references an escaper might legitimately use for the five specials
-NumRef(c) == CASE c = "&" -> {<<"&", "#", "3", "8", ";">>, <<"&", "#", "x", "2", "6", ";">>}
-               [] c = "<" -> {<<"&", "#", "6", "0", ";">>, <<"&", "#", "x", "3", "c", ";">>, <<"&", "#", "x", "3", "C", ";">>}
-               [] c = ">" -> {<<"&", "#", "6", "2", ";">>, <<"&", "#", "x", "3", "e", ";">>, <<"&", "#", "x", "3", "E", ";">>}
-               [] c = "\"" -> {<<"&", "#", "3", "4", ";">>, <<"&", "#", "x", "2", "2", ";">>}
-               [] c = "'" -> {<<"&", "#", "3", "9", ";">>, <<"&", "#", "x", "2", "7", ";">>}
-Refs(c) == {Entity(c)} \cup NumRef(c)
-\* decoder: <<ok, text>> ; ok = FALSE when a bare special or an unknown reference is met
+\* ---- references ----
+\* A reference is one of the five named entities or a numeric character reference &#d+; / &#xh+; to ANY character (an escaper may also
+\* protect characters the parser would otherwise normalise, e.g. &#13; for a carriage return, or spell & as &#038;).
+\* Characters of the escaping alphabet are themselves; every other character is the opaque token "uXXXX" (its code point), as the harness
+\* renders it, so a numeric reference decodes to exactly the token the harness uses for that character.
+PlainTable == {
+   <<"&", 38>>, <<"<", 60>>, <<">", 62>>, <<"\"", 34>>, <<"'", 39>>, <<"a", 97>>, <<"m", 109>>, <<"p", 112>>,
+   <<";", 59>>, <<"#", 35>>, <<"l", 108>>, <<"t", 116>>, <<"g", 103>>, <<"q", 113>>, <<"u", 117>>, <<"o", 111>>,
+   <<"s", 115>>, <<"x", 120>>, <<"0", 48>>, <<"1", 49>>, <<"2", 50>>, <<"3", 51>>, <<"4", 52>>, <<"5", 53>>,
+   <<"6", 54>>, <<"7", 55>>, <<"8", 56>>, <<"9", 57>>, <<"c", 99>>, <<"C", 67>>, <<"e", 101>>, <<"E", 69>>,
+   <<" ", 32>>, <<"b", 98>>, <<"d", 100>>, <<"f", 102>>, <<"A", 65>>, <<"B", 66>>, <<"D", 68>>, <<"F", 70>> }
+HexVal(c) == CASE c = "0" -> 0 [] c = "1" -> 1 [] c = "2" -> 2 [] c = "3" -> 3 [] c = "4" -> 4 [] c = "5" -> 5 [] c = "6" -> 6 [] c = "7" -> 7
+               [] c = "8" -> 8 [] c = "9" -> 9 [] c \in {"a", "A"} -> 10 [] c \in {"b", "B"} -> 11 [] c \in {"c", "C"} -> 12
+               [] c \in {"d", "D"} -> 13 [] c \in {"e", "E"} -> 14 [] c \in {"f", "F"} -> 15 [] OTHER -> -1
+HexDigit(k) == CASE k = 0 -> "0" [] k = 1 -> "1" [] k = 2 -> "2" [] k = 3 -> "3" [] k = 4 -> "4" [] k = 5 -> "5" [] k = 6 -> "6" [] k = 7 -> "7"
+                 [] k = 8 -> "8" [] k = 9 -> "9" [] k = 10 -> "A" [] k = 11 -> "B" [] k = 12 -> "C" [] k = 13 -> "D" [] k = 14 -> "E" [] k = 15 -> "F"
+RECURSIVE HexStr(_, _)
+HexStr(n, w) == IF n = 0 /\ w <= 0 THEN "" ELSE HexStr(n \div 16, w - 1) \o HexDigit(n % 16)
+TokenOf(n) == IF \E pr \in PlainTable : pr[2] = n THEN (CHOOSE pr \in PlainTable : pr[2] = n)[1] ELSE "u" \o HexStr(n, 4)
+MaxCode == 1114111
+RECURSIVE NumVal(_, _, _)
+NumVal(ds, base, acc) ==
+  IF ds = <<>> THEN acc
+  ELSE LET v == HexVal(Head(ds)) IN
+       IF v < 0 \/ v >= base \/ acc > MaxCode THEN -1 ELSE NumVal(Tail(ds), base, acc * base + v)
+SemiPos(t) == IF \E k \in 1..Len(t) : t[k] = ";" THEN CHOOSE k \in 1..Len(t) : t[k] = ";" /\ \A m \in 1..(k - 1) : t[m] # ";" ELSE 0
+\* t starts with "&": <<length of the reference, the character it stands for>>, or <<0, "">> when it is not a reference
+RefAt(t) ==
+  IF \E c \in Specials : StartsWith(t, Entity(c)) THEN LET c == CHOOSE c2 \in Specials : StartsWith(t, Entity(c2)) IN <<Len(Entity(c)), c>>
+  ELSE LET k == SemiPos(t) IN
+       IF k < 4 \/ t[2] # "#" THEN <<0, "">>
+       ELSE LET hex == t[3] = "x"
+                ds == SubSeq(t, IF hex THEN 4 ELSE 3, k - 1)
+                n == IF ds = <<>> \/ Len(ds) > 8 THEN -1 ELSE NumVal(ds, IF hex THEN 16 ELSE 10, 0) IN
+            IF n < 1 \/ n > MaxCode THEN <<0, "">> ELSE <<k, TokenOf(n)>>
+\* decoder: <<ok, text>> ; ok = FALSE when a bare special or something that is not a reference is met
 RECURSIVE Unesc(_)
 Unesc(t) ==
   IF t = <<>> THEN <<TRUE, <<>>>>
   ELSE IF Head(t) = "&" THEN
-       LET hits == {<<c, r>> \in {<<c2, r2>> \in Specials \X UNION {Refs(c3) : c3 \in Specials} : r2 \in Refs(c2)} : StartsWith(t, r)} IN
-       IF hits = {} THEN <<FALSE, <<>>>>
-       ELSE LET h == CHOOSE x \in hits : TRUE
-                rest == Unesc(SubSeq(t, Len(h[2]) + 1, Len(t))) IN
-            <<rest[1], <<h[1]>> \o rest[2]>>
+       LET h == RefAt(t) IN
+       IF h[1] = 0 THEN <<FALSE, <<>>>>
+       ELSE LET rest == Unesc(SubSeq(t, h[1] + 1, Len(t))) IN <<rest[1], <<h[2]>> \o rest[2]>>
   ELSE IF Head(t) \in Specials THEN <<FALSE, <<>>>>
   ELSE LET rest == Unesc(Tail(t)) IN <<rest[1], <<Head(t)>> \o rest[2]>>
 \* the statement, for an observed output o of input s
@@ -64,6 +89,22 @@ JudgeDuration(sec, ms, p) ==
        ELSE IF p.form = "ms" /\ p.b > 59 THEN "hms.fields_00_59"
        ELSE IF p.form = "hms" /\ (p.b > 59 \/ p.c > 59) THEN "hms.fields_00_59"
        ELSE IF ~p.two THEN "hms.fields_00_59"                    \* minutes/seconds fields are two digits wide
+       ELSE "ok"
+\* the same statement for a duration given to the microsecond, <<sec, us>> with us in 0..999999 (durations are real numbers, not whole
+\* milliseconds): under 10 s the printed value is the duration rounded to the millisecond (9.9996 s prints as 10.000 - it is still "under 10 s")
+RoundedMsSet(sec, us) == LET m == sec * 1000 + us \div 1000  r == us % 1000 IN IF r < 500 THEN {m} ELSE IF r > 500 THEN {m + 1} ELSE {m, m + 1}
+RoundedSetUs(sec, us) == IF us < 500000 THEN {sec} ELSE IF us > 500000 THEN {sec + 1} ELSE {sec, sec + 1}
+JudgeDurationUs(sec, us, p) ==
+  IF sec < 10 THEN
+     (IF p.form = "msec" /\ p.b < 1000 /\ (p.a * 1000 + p.b) \in RoundedMsSet(sec, us) THEN "ok" ELSE "hms.under_10s_to_the_millisecond")
+  ELSE IF p.form \notin {"s", "ms", "hms"} THEN "hms.form_chosen_by_rounded_value"
+  ELSE LET total == IF p.form = "s" THEN p.a ELSE IF p.form = "ms" THEN p.a * 60 + p.b ELSE p.a * 3600 + p.b * 60 + p.c
+           want == IF total < 60 THEN "s" ELSE IF total < 3600 THEN "ms" ELSE "hms" IN
+       IF total \notin RoundedSetUs(sec, us) THEN "hms.encodes_rounded_duration"
+       ELSE IF p.form # want THEN "hms.form_chosen_by_rounded_value"
+       ELSE IF p.form = "ms" /\ p.b > 59 THEN "hms.fields_00_59"
+       ELSE IF p.form = "hms" /\ (p.b > 59 \/ p.c > 59) THEN "hms.fields_00_59"
+       ELSE IF ~p.two THEN "hms.fields_00_59"
        ELSE "ok"
 \* impl-shaped: the code's branch structure on the rounded value R
 FormatImpl(sec, ms, R) ==
